@@ -268,6 +268,7 @@ func TestC18(t *testing.T) {
 	type ld struct{ b, prefix, extra string }
 	lds := []ld{{"0.4.2", "v", ""}, {"1.3.0", "v", "dirty"}, {"2.0.7-rc.1", "v", "clean"}, {"0.0.0", "", ""}, {"3.1.0+build5", "v", ""}, {"dev-main", "", "dirty"},
 		{"3.1.0+build5", "v", "dirty"}, {"0.3.1+exp.sha.5114f85", "", "dirty"}, {"1.3.0-rc.1", "", "dirty"}, {"1.3.0+b", "v", "clean"},
+		{"1.3.1-0.20231102220126-cd3ac9fbe738", "v", ""}, {"0.0.0-20231102220126-cd3ac9fbe738", "v", "dirty"}, {"1.3.1-rc.1.0.20231102220126-cd3ac9fbe738", "", ""},
 		{"1.2.3", "", "module"}, {"0.3.1", "", "module"}, {"1.10.0-rc.1", "", "module"}}
 	if ev.Thorough() {
 		for i, b := range grid {
